@@ -1532,7 +1532,7 @@ fn c17(sim: &mut Sim, d: &Delivery) -> u64 {
         sim.stats.probe("unknown_field_in_template");
     }
     // (b) feature off: a record containing a field the library does not know is not reported
-    if !UNKNOWN_FIELDS_ON && w.conformant() {
+    if !UNKNOWN_FIELDS_ON && w.conformant() && decomposes(sim, d, &r) {
         if let Some(offs) = offsets(d.buf, &r) {
             for pk in &w.pkts {
                 let sets = match &pk.body {
@@ -1545,7 +1545,14 @@ fn c17(sim: &mut Sim, d: &Delivery) -> u64 {
                     NetflowPacket::IPFix(x) => flat_ipfix(x),
                     _ => continue,
                 };
-                for (k, s) in sets.iter().enumerate() {
+                // align returned sets with the model's by (id, length), in order: IPFIX omits the
+                // sets it cannot decode
+                let mut gi = 0usize;
+                for s in sets.iter() {
+                    let here = fp.sets.get(gi).filter(|(id, len, _)| *id == s.id && *len == s.len);
+                    if here.is_some() {
+                        gi += 1;
+                    }
                     let MSetKind::Data { recs, .. } = &s.kind else { continue };
                     if s.tainted {
                         continue;
@@ -1556,7 +1563,7 @@ fn c17(sim: &mut Sim, d: &Delivery) -> u64 {
                     }
                     sim.stats.probe("unknown_field_record_with_feature_off");
                     sim.stats.nontrivial = true;
-                    let reported = match fp.sets.get(k) {
+                    let reported = match here {
                         Some((id, _, FSet::V9Data { recs, .. })) if *id == s.id => !recs.is_empty(),
                         Some((id, _, FSet::IpData { vals, .. })) | Some((id, _, FSet::IpOData { vals, .. })) if *id == s.id => !vals.is_empty(),
                         _ => false,
